@@ -45,7 +45,8 @@ def fail_tokens(kind):
 
 def gen_test(rng, idx, failure=None, kinds=None):
     kinds = kinds or ["xor_add", "mul", "div", "mod", "sdiv", "addmod", "mulmod", "exp", "bytes_len", "arr_sum", "unsat", "two_args", "storage",
-                      "signed", "shift", "nested_assert", "conj3", "loop_guard", "arr_loop", "bytes_tail", "disarm", "storage", "storage2"]
+                      "signed", "shift", "nested_assert", "conj3", "loop_guard", "arr_loop", "bytes_tail", "disarm", "storage", "storage2",
+                      "smod_zero", "mod_zero", "div_zero", "sdiv_zero", "addmod_zero", "mulmod_zero"]
     kind = rng.choice(kinds)
     failure = failure or rng.choice(["panic1", "panic1", "panic11", "vmassert", "vmasserteq", "failflag"])
     name = f"check_t{idx}"
@@ -112,6 +113,16 @@ def gen_test(rng, idx, failure=None, kinds=None):
         # guarded by the exact value written by setUp
         body = [1, "SLOAD", SETUP_SLOT_VALUE, "EQ"] + arg(0) + [42, "EQ", "AND", "@bad", "JUMPI", "STOP"] + bad
         return GenTest(Fn(name, [("y", U)], body), [[42]], True, kind, failure, feats | {"needs-setup"})
+    if kind in ("smod_zero", "mod_zero", "div_zero", "sdiv_zero", "addmod_zero", "mulmod_zero"):
+        # the modulus / divisor is symbolic and forced to zero by the guard: the EVM result is 0, so the failure
+        # (result == K != 0) is unreachable; a refinement that forgets the zero case makes it "reachable"
+        K = rng.randrange(1, 2**64)
+        op = {"smod_zero": "SMOD", "mod_zero": "MOD", "div_zero": "DIV", "sdiv_zero": "SDIV", "addmod_zero": "ADDMOD", "mulmod_zero": "MULMOD"}[kind]
+        if op in ("ADDMOD", "MULMOD"):
+            body = arg(2) + arg(1) + arg(0) + [op, K, "EQ"] + arg(2) + ["ISZERO", "AND", "@bad", "JUMPI", "STOP"] + bad
+            return GenTest(Fn(name, [("x", U), ("y", U), ("z", U)], body), [[K, 0, 0], [K, 1, 0], [1, K, 0]], False, kind, failure, feats, needs_refinement=True)
+        body = arg(1) + arg(0) + [op, K, "EQ"] + arg(1) + ["ISZERO", "AND", "@bad", "JUMPI", "STOP"] + bad
+        return GenTest(Fn(name, [("x", U), ("y", U)], body), [[K, 0], [0, 0]], False, kind, failure, feats, needs_refinement=True)
     if kind == "arr_sum":
         K = rng.getrandbits(64) + 2
         body = (arg(0) + [4, "ADD", "DUP1", "CALLDATALOAD", 2, "EQ", "ISZERO", "@ok", "JUMPI", "DUP1", 32, "ADD", "CALLDATALOAD", "SWAP1", 64, "ADD", "CALLDATALOAD", "ADD",
